@@ -8,7 +8,7 @@ CHECKS = {
  'C04': dict(sec='2/C04', cat='exploration',
    text='Every generated pair of point lists (clusters at all declinations, RA seam, all-sky, list 2 wider than list 1, coincident points, threshold shells at m(1+-10^-u), and points placed 1e-9..1e-3 cell widths from the RA/Dec edges, padded bounds, seam cell and polar slice of the chunk grid recorded from the live call) is matched by the real spherematch as given, permuted, and with another chunk size; a brute-force long-double oracle checks completeness, exactly-once, soundness, distances, order and - for maxmatch>0 - cap and greedy maximality. A spatial hash over a continuous domain can only be sampled: exploration with adversarial placement and reach evidence.',
    note='Trusts numpy long double for the reference separations and the ambiguity band max(1e-9*m, 1e-11 deg); pairs inside the band are undecided by construction. Guided generators read the chunk geometry of the tree under test; replays store materialised coordinates.',
-   tech='runtime monitoring: boundary recorder + brute-force reference oracle, geometry-guided generators from the recorded chunks instance, permutation/chunk-size metamorphic re-execution'),
+   tech='runtime monitoring: boundary recorder + brute-force reference oracle, geometry-guided generators from the recorded chunks instance, permutation/chunk-size metamorphic re-execution + buffer-reuse differential monitor at the function boundary (identity-keyed caches, result ownership)'),
  'C05': dict(sec='2/C05', cat='exploration',
    text='Every generated point list (chains, serpentines and rings crossing many chunks, RA 0/360 and the poles, clumps hugging the edges and corners of the recorded chunk grid, polar caps, all-sky scatter, coincident and two-point inputs, grids clamped at +-90) is grouped by the real spheregroup as given, permuted and with another chunk size; a long-double union-find oracle checks that ingroup is exactly the friends-of-friends partition numbered by first member and that multgroup/firstgroup/nextgroup describe the same partition (bounded walks). All 45750 placements of 2-4 points on a 5x5 lattice at a chunk corner, on the seam and at Dec 89 are enumerated in the thorough tier; outside the lattice this is sampling.',
    note='Trusts numpy long double for separations and the band max(1e-9*L, 1e-11 deg) (a case is undecided only if the band changes the partition); the lattice sub-space is exhaustive for L = 0.1 deg, default chunk size and the three sites only.',
@@ -16,15 +16,15 @@ CHECKS = {
  'C16': dict(sec='2/C16', cat='exploration',
    text='Every readspec call on generated survey trees is compared cell by cell with the value rebuilt from the request and a unique-id code (file, HDU, fibre, pixel) stored in every number of the tree, over scrambled/repeated multi-plate requests, all calling conventions, three ways of locating files incl. a decoy tree, and every spec_append call (direct or inside readspec) is checked against a placement model (shape, offsets, zeros elsewhere, ids conserved, inputs untouched). Sampling of the request/tree space with adversarial placement and reach evidence.',
    note='Trusts astropy.io.fits writing/reading, numpy fancy indexing, the id code in vlib/gen/survey_tree.py and the request expansion written from the docstring; align=True, znum=, plates > 9999 are not covered.',
-   tech='runtime monitoring: unique-id survey trees + decoy tree, reference request expansion, spec_append placement monitor'),
+   tech='runtime monitoring: unique-id survey trees + decoy tree, reference request expansion, spec_append placement monitor + buffer-reuse differential monitor at the function boundary (identity-keyed caches, result ownership)'),
  'C19': dict(sec='2/C19', cat='exploration',
    text='airtovac/vactoair, sdssflux2ab and filter_thru are executed on generated inputs of every flavour the property names (float, numpy scalar, 0-d/1-d/2-d arrays in several layouts, scalar and array Quantity in A/nm/um/m; 5-band arrays incl. negative fluxes; flux images over in-band, out-of-band and noisy wavelength solutions given as image and as trace set, masks hiding NaN/inf) and every return value is checked against the property\'s relations (round trip <= 1e-6 A, unchanged below 2000 A, unit/shape/flavour agreement, unmodified arguments, one AB offset per band in all three forms, linearity, constant -> constant, bounds, exact mask independence, wset == waveimg) plus an independent weighted-mean model. Held on the executions observed.',
    note='Trusts numpy/long-double arithmetic and the check\'s own parser of the filter tables of the tree under test; wavelengths within 1e-9 of 2000 A are undecided for unit-converted input; fully masked traces and the value for a band without overlap are outside the asserted domain.',
-   tech='runtime monitoring: boundary recorder + metamorphic/round-trip relations and reference-model oracle over generated inputs'),
+   tech='runtime monitoring: boundary recorder + metamorphic/round-trip relations and reference-model oracle over generated inputs + buffer-reuse differential monitor at the function boundary (identity-keyed caches, result ownership)'),
  'C15': dict(sec='2/C15', cat='exploration',
    text='icontract contracts installed on the real HMF.astep/gstep/astepnn/gstepnn/normbase observe every factor update the real solve() performs (normal-equation residual per object/pixel, objective non-increase, unit rms, non-negativity, bitwise seed reproducibility, caller arrays untouched); computechi2 attributes are compared with a long-double QR reference, pcomp with an explicitly summed correlation/covariance matrix, pca_solve coefficients through a relative normal-equation residual on the returned eigenspectra. Contract evaluation counters are required > 0. A statement about the executions observed (rank-K+noise data, K <= 5, sizes <= 60x200, cond <= 1e6).',
    note='Trusts numpy long double, numpy.linalg.eigvalsh/svd used by the oracle, icontract 2.7.3 evaluating every installed condition, and the two monotonicity arguments stated in the evidence assumptions.',
-   tech='runtime monitoring: icontract contracts on live HMF updates + reference-model oracles (long-double QR, explicit covariance) + seed-replay determinism'),
+   tech='runtime monitoring: icontract contracts on live HMF updates + reference-model oracles (long-double QR, explicit covariance) + seed-replay determinism + buffer-reuse differential monitor at the function boundary (identity-keyed caches, result ownership)'),
  'C20': dict(sec='2/C20', cat='fault_enumeration',
    text='Source-free failpoints: a clean run records every LINE event in the entry points\' own code objects (window_score; template_input, its body, template_metadata) and every PY_START of a directly called function; the run is then repeated with an exception raised from the sys.monitoring callback at the k-th line and at the k-th collaborator call (all k in the thorough tier, a stride in the quick tier) for every initial set/unset state of the touched variables, plus natural failures; after every run the full os.environ must equal the snapshot taken before and the os.putenv/os.unsetenv audit log may only name the touched variables. Complete over the recorded execution paths, not over all paths.',
    note='Trusts sys.monitoring exception injection and the audit hook; sdss_score is a stub collaborator; template_input runs on a synthetic survey tree; BaseException faults, faults inside the restoring statement itself and keyword-only lines (try:/else:/finally:, which execute nothing) are excluded.',
@@ -32,15 +32,15 @@ CHECKS = {
  'C11': dict(sec='2/C11', cat='exploration',
    text='combine1fiber is run on 1-D spectra and stacked 2-D exposures over every zero-weight pattern, output-grid relation (same, shifted, wider, narrower, coarser, finer, disjoint), aesthetics method, with and without objivar, float32/float64; shape, finiteness and ivar >= 0 are asserted on every call, the must-be-zero set is computed independently from the good-pixel pattern (one-directional, boundary band), non-zero single-spectrum ivar must equal np.interp of the input and stay below the local maximum; smooth noise-free inputs must be reproduced, constants preserved, (c*flux, ivar/c^2) scaled, and preprocess_spectra must move a narrow feature by log10(1+z). An audit hook turns any network access into a harness error.',
    note='Trusts numpy.interp/searchsorted for the reference zero set; SPPIXMASK bits pre-loaded from fixtures/maskbits.par; finalmask/indisp/skyflux paths and fill values at bad pixels are outside the property.',
-   tech='runtime monitoring: boundary recorder + independent zero-set/interpolation oracle + metamorphic relations (identity, constant, scaling, de-redshift)'),
+   tech='runtime monitoring: boundary recorder + independent zero-set/interpolation oracle + metamorphic relations (identity, constant, scaling, de-redshift) + buffer-reuse differential monitor at the function boundary (identity-keyed caches, result ownership)'),
  'C12': dict(sec='2/C12', cat='exploration',
    text='Real membership, window-lookup, reader and set_use_caps calls run on generated polygon lists and index lists; every verdict outside a derived rounding band is compared with a long-double evaluation of the cap definition (a cap\'s own centre is always asserted), and the same list is pushed through all four storage formats (.ply, FITS raw/converted incl. the one-cap 3D layout, window_read from blist+bcaps) as real files, all answers having to agree with the reference. Held on the classes observed, each witnessed by a required counter.',
    note='Trusts numpy long double and vlib/refs/mangle_ref.py; astropy.io.fits as file writer; verdicts closer than 1e-9 (float32 caps 5e-5) in 1-x.p to a cap boundary are not asserted except a cap\'s own centre.',
-   tech='runtime monitoring: boundary recorder + long-double reference oracle with ambiguity bands + four-format differential through real files'),
+   tech='runtime monitoring: boundary recorder + long-double reference oracle with ambiguity bands + four-format differential through real files + buffer-reuse differential monitor at the function boundary (identity-keyed caches, result ownership)'),
  'C13': dict(sec='2/C13', cat='exploration',
    text='Generated abscissae, fitting problems and trace sets (arrays/scalars/float32/integer-typed, 1-13 basis functions of all four families, weights over six decades with zero weights, fixed coefficients, inputfunc, 1-6 traces with and without the BOSS jump, FITS-style tables, near-integer grid ranges) are run through the real bases, func_fit, xy2traceset/TraceSet and traceset2xy; bases are compared with numpy.polynomial, fits with an SVD weighted least-squares solution plus a conditioning-independent normal-equation test, evaluations with an independent normalisation/jump model, grid sizes in exact rationals. Held on the executions observed.',
    note='Trusts numpy.polynomial Vandermonde recurrences and numpy.linalg.lstsq and the module docstrings for the split basis and the x-jump; one float dtype per call, non-negative weights, >= ncoeff+1 weighted points, design condition <= 3e4; stated ambiguity bands for the H(x) step and near-integer grid ranges.',
-   tech='runtime monitoring: boundary recorder + reference-model oracles (numpy.polynomial, dense weighted lstsq) + zero-weight perturbation metamorphic check'),
+   tech='runtime monitoring: boundary recorder + reference-model oracles (numpy.polynomial, dense weighted lstsq) + zero-weight perturbation metamorphic check + buffer-reuse differential monitor at the function boundary (identity-keyed caches, result ownership)'),
  'C10': dict(sec='2/C10', cat='exploration',
    text='Each generated problem (polynomial/slow signal + noise, injected outliers, zero and negative weights, all breakpoint options, limits, maxiter 0-10, invvar=None, float32) is run as given, under a random permutation and with the non-positively weighted points deleted, and compared with an independent dense fit/reject/refit loop (mask exactly, curve within a conditioning-derived tolerance, number of fits equal); residuals within 1e-6 of a limit make a case undecided. A recorder on bspline.fit counts the refits the real loop performed.',
    note='Trusts numpy lstsq and the reference loop transcription of the documented procedure (cumulative rejection); well-supported problems only; cases where the fit itself drops a breakpoint are counted and excluded.',
@@ -48,23 +48,23 @@ CHECKS = {
  'C08': dict(sec='2/C08', cat='exploration',
    text='Every breakpoint option is driven with sorted/shuffled, clustered, duplicated, float32/float64 abscissae; the constructed knot vector is checked for monotonicity, coverage and padding, and value()/bsplvn()/mask are compared at data points, knots, midpoints and just-outside points with an independent Cox-de Boor recursion and with scipy BSpline, plus an exact order-permutation metamorphic check. Held on the constructions observed (one open finding: every-n with a single breakpoint).',
    note='Trusts the textbook recursion in vlib/refs/bspline_ref.py and scipy.interpolate.BSpline; values exactly on a discontinuity (breakpoint repeated more than order-1 times) are convention and not compared.',
-   tech='runtime monitoring: boundary recorder + two independent reference evaluators + metamorphic order check'),
+   tech='runtime monitoring: boundary recorder + two independent reference evaluators + metamorphic order check + online value/knot oracle on the calls made by iterfit, combine1fiber and the repository suite (cross-workload) + buffer-reuse differential monitor at the function boundary (identity-keyed caches, result ownership)'),
  'C09': dict(sec='2/C09', cat='exploration',
    text='Well-supported fits are compared with dense weighted lstsq on an independently built design matrix (fitted values, chi-square, coefficients), with polynomial reproduction, zero-weight invariance (bit-identical) and linearity; the banded Cholesky pair is checked by dense reconstruction on random SPD matrices and must signal non-PD/non-finite input; ill-posed fits (gaps, empty segments, zero-weight runs, few points) must return a status code with finite coefficients and terminate under refitting. Counters prove maskpoints and the Cholesky fallback were actually entered.',
    note='Trusts numpy.linalg.lstsq/solve; well-posed problems use quasi-uniform knots; weights within 3 decades, or concentrated on one or two pixels as far as every coefficient stays at least twice above the fit\'s own screening level (conditioning assumptions stated in the evidence); status and mask must not depend on the data values (blank-data twin); long vectors (points x order up to 2**22) are generated from the seed at run time.',
-   tech='runtime monitoring: boundary recorder + dense linear-algebra oracle + status/mask discipline monitor'),
+   tech='runtime monitoring: boundary recorder + dense linear-algebra oracle + status/mask discipline monitor + buffer-reuse differential monitor at the function boundary (identity-keyed caches, result ownership)'),
  'C14': dict(sec='2/C14', cat='exploration',
    text='smooth, median, uniq and rebin are run on generated arrays (all widths, ties, constants, 1-3-D shapes, every expand/keep/shrink combination incl. float-fragile factors, integer and float dtypes) and compared element-wise with reference implementations written from the IDL definitions; shapes/dtypes exact, sample picks exact, integer interpolation within 1 of the exact rational value; refusals must be ValueError. Held on the calls observed (one open IDL-faithful finding for uniq with index on constant arrays).',
    note='Trusts vlib/refs/idl_builtins.py (independent re-implementation of the IDL rules) and exact integer arithmetic for rebin positions.',
-   tech='runtime monitoring: boundary recorder + reference-implementation oracle over generated arrays'),
+   tech='runtime monitoring: boundary recorder + reference-implementation oracle over generated arrays + online smooth/median/uniq oracles on the calls made by bspline.action, iterfit, combine1fiber, djs_median and the repository suite (cross-workload) + buffer-reuse differential monitor at the function boundary (identity-keyed caches, result ownership)'),
  'C17': dict(sec='2/C17', cat='exploration',
    text='djs_reject is driven through 1-3-call histories with residuals planted at (1 +- 1e-8..1e-1) x every limit and compared point by point with a long-double reference (ambiguity band 1e-9), incl. grow clipping, sticky masks and qdone; djs_maskinterp vs brute-force nearest-good-neighbour interpolation on 1-3-D arrays/axes/unsorted x; aesthetics must not touch good pixels; reflecting djs_median vs a brute-force symmetric-reflection median; skymask vs bit tests on Python ints for int16/32/64/uint64 masks. 29 required counters show each deciding branch was reached.',
    note='Trusts numpy long double and the reference models in vlib/refs/pixels.py; grow applies around points rejected by a limit in the same call (IDL semantics); domain exclusions listed in the evidence assumptions.',
-   tech='runtime monitoring: boundary recorder + element-wise reference-model oracle with ambiguity bands over call histories'),
+   tech='runtime monitoring: boundary recorder + element-wise reference-model oracle with ambiguity bands over call histories + online djs_reject oracle on the calls made by iterfit, xy2traceset and the repository suite (cross-workload) + buffer-reuse differential monitor at the function boundary (identity-keyed caches, result ownership)'),
  'C18': dict(sec='2/C18', cat='exploration',
    text='gcirc (three unit conventions, arrays/scalars), the astropy-registered ICRS<->SDSSMuNu transforms for every stripe 0-90 in both directions, and angles<->unit vectors are compared element-wise with an independent long-double model on constructed point pairs over 13 decades of separation incl. exact poles, seam, coincident and antipodal points; symmetry, isometry, round trip, great-circle and stripe-definition relations are asserted under conditioning-derived tolerances with >=100x margin. Sampling with reach evidence, not a proof over the sphere.',
    note='Trusts x87 long-double trig in vlib/refs/sphere.py (self-cross-checked against a second formula and the constructed separation in every case) and astropy SkyCoord machinery around the pydl transform functions.',
-   tech='runtime monitoring: boundary recorder + long-double reference oracle + constructed-pair metamorphic relations'),
+   tech='runtime monitoring: boundary recorder + long-double reference oracle + constructed-pair metamorphic relations + buffer-reuse differential monitor at the function boundary (identity-keyed caches, result ownership)'),
  'C01': dict(sec='2/C01', cat='exploration',
    text='Every generated table set (all supported column types, hostile strings, extreme numbers, zero-row tables, structure-name torture, headers, Table API, big-endian input) is written with the real writer and read back twice (returned object and fresh read); a table-set model checks names, order, dtypes, rows, bit-identical floats and header text, and unsupported column types must be refused without leaving a file. Held on the documents observed; coverage is sampling of an infinite input space with reach evidence of the writer/parser lines.',
    note='Trusts numpy bit views for float comparison and the stated exclusions of inexpressible texts (listed in the evidence assumptions).',
@@ -80,11 +80,11 @@ CHECKS = {
  'C07': dict(sec='2/C07', cat='exploration',
    text='Generated maskbits files (sparse bits incl. 0/31/32/62/63, aliases, comments) go through the real raw-mode yanny path into set_maskbits; ~40 queries per file are checked against the generating definition in Python ints (OR of 2^bit, ascending defined names, both round trips, case-insensitivity, alias equivalence, KeyError exactly when needed, existence-tuple shapes). Held on the files and queries observed.',
    note='Trusts the generated definition as ground truth; file content upper-case with one label per bit (property domain).',
-   tech='runtime monitoring: boundary recorder + reference-model oracle over generated definition files'),
+   tech='runtime monitoring: boundary recorder + reference-model oracle over generated definition files + buffer-reuse differential monitor at the function boundary (identity-keyed caches, result ownership)'),
  'C06': dict(sec='2/C06', cat='exploration',
    text='Boundary recorder on sdss_objid/sdss_specobjid/unwrap_* with a big-int reference packer as online oracle: per-field exhaustive sweeps, all vN_M_P strings, sampled scalar calls, narrow dtypes, decimal-string IDs and rejection cases. Held-on-observed, not a proof: fields are swept one at a time with the others at their extremes, combinations are sampled.',
    note='Trusts the bit layout transcribed from the docstrings and numpy integer semantics; run2d strings with out-of-range components are outside the claim.',
-   tech='runtime monitoring: boundary recorder + reference-model oracle over swept/sampled calls'),
+   tech='runtime monitoring: boundary recorder + reference-model oracle over swept/sampled calls + buffer-reuse differential monitor at the function boundary (identity-keyed caches, result ownership)'),
 }
 
 def main():
